@@ -245,6 +245,76 @@ example : (replaceCountT (.str [0x61, 0x62, 0x61]) (.str [0x61]) (.str [0x78, 0x
     (replaceCountT (.str [0x61, 0x62, 0x61]) (.str [0x61]) (.str [0x78, 0x79]) (.num (.int .i64 (2 ^ 63 - 1)))).2 ≤ 60 :=
   ⟨by rw [replaceCountT_fst]; rfl, replaceCountT_snd_le_int _ _ _ _⟩
 
+/-! ## 7. The array loops (array.go, the `zip` builtin of evaluator.go)
+
+  Here the trip count is the length of an array, never an integer argument.  The evaluation of the sub-expression is a
+  parameter `fT : Val → T (Res Val)` whose ticks are counted through the monad (`evalCost fT xs` = the sum over the
+  elements); the loops themselves cost a constant per element visited / written. -/
+
+/-- `index(v, i)` (array.go:564-580): no loop, no allocation — the model's result at no tick, ∀ i : Int (this replaces
+    the first-wave `indexCost … = 1 := rfl`) -/
+theorem index_resource (v : Val) : ∀ i : Int, (indexT v i).1 = index v i ∧ (indexT v i).2 = 0 :=
+  fun i => ⟨indexT_fst v i, indexT_snd v i⟩
+
+example : indexT (.arr .plain [.bool true, .null]) (2 ^ 63 - 1) = ⟨.ok .null, 0⟩ := by rfl
+
+/-- `flatten(v)` (array.go:533) and `pruneArray(v)` (array.go:582): model results; `flatten` costs at most
+    `3·(len + inner elements + 1)` ticks, i.e. `2·(len + nulls skipped + |result| + 1)`; `pruneArray` at most
+    `2·(len + 1)` -/
+theorem flatten_resource (v : Val) (t : ATag) (a : List Val) :
+    (flattenT v).1 = flatten v ∧ (pruneArrayT v).1 = pruneArray v ∧
+    (flattenT (.arr t a)).2 ≤ 3 * (a.length + flattenInnerCount a + 1) ∧
+    (flattenT (.arr t a)).2 ≤ 2 * (a.length + flattenNulls a + (flattenElems a).length + 1) ∧
+    (pruneArrayT (.arr t a)).2 ≤ 2 * (a.length + 1) :=
+  ⟨flattenT_fst v, pruneArrayT_fst v, flattenT_snd_le t a, flattenT_snd_le_result t a, pruneArrayT_snd_le t a⟩
+
+/-- the projection loops (array.go:277 `projectArray`, :163 `filter`, :184 `filterAndProjectArray`,
+    :214 `flattenAndProjectArray`, :255 `mapArray`): model results on the results of the sub-expression, and at most
+    `3` ticks per element of their own plus the ticks of the evaluations -/
+theorem projection_resource (cT fT : Val → T (Res Val)) (v : Val) (t : ATag) (xs : List Val) :
+    (projectArrayT fT v).1 = projectArray (fun x => (fT x).1) v ∧
+    (filterArrayT cT v).1 = filterArray (fun x => (cT x).1) v ∧
+    (filterAndProjectArrayT cT fT v).1 = filterAndProjectArray (fun x => (cT x).1) (fun x => (fT x).1) v ∧
+    (flattenAndProjectArrayT fT v).1 = flattenAndProjectArray (fun x => (fT x).1) v ∧
+    (mapArrayT fT v).1 = mapArray (fun x => (fT x).1) v ∧
+    (projectArrayT fT (.arr t xs)).2 ≤ 3 * xs.length + evalCost fT xs ∧
+    (filterArrayT cT (.arr t xs)).2 ≤ 3 * xs.length + evalCost cT xs ∧
+    (filterAndProjectArrayT cT fT (.arr t xs)).2 ≤ 3 * xs.length + evalCost cT xs + evalCost fT xs ∧
+    (flattenAndProjectArrayT fT (.arr t xs)).2
+      ≤ 2 * xs.length + 2 * (flattenForProject xs).length + evalCost fT (flattenForProject xs) ∧
+    (mapArrayT fT (.arr t xs)).2 ≤ 2 * xs.length + evalCost fT xs :=
+  ⟨projectArrayT_fst fT v, filterArrayT_fst cT v, filterAndProjectArrayT_fst cT fT v,
+   flattenAndProjectArrayT_fst fT v, mapArrayT_fst fT v, projectArrayT_snd_le fT t xs, filterArrayT_snd_le cT t xs,
+   filterAndProjectArrayT_snd_le cT fT t xs, flattenAndProjectArrayT_snd_le fT t xs, mapArrayT_snd_le fT t xs⟩
+
+/-- `sort_by` / `max_by` / `min_by` (array.go:336, :13, :88): model results; the key collection and the scan cost at
+    most `3` ticks per element plus the evaluations of the key expression.  `sort.Stable` itself is Go library code
+    (`O(n log n)` calls of `Less`, `O(n log² n)` swaps) and is NOT instrumented. -/
+theorem keyed_resource (fT : Val → T (Res Val)) (v : Val) (t : ATag) (xs : List Val) :
+    (sortArrayByT fT v).1 = sortArrayBy (fun x => (fT x).1) v ∧
+    (arrayMaxByT fT v).1 = arrayMaxBy (fun x => (fT x).1) v ∧
+    (arrayMinByT fT v).1 = arrayMinBy (fun x => (fT x).1) v ∧
+    (sortArrayByT fT (.arr t xs)).2 ≤ 3 * xs.length + evalCost fT xs ∧
+    (arrayMaxByT fT (.arr t xs)).2 ≤ 2 * xs.length + evalCost fT xs ∧
+    (arrayMinByT fT (.arr t xs)).2 ≤ 2 * xs.length + evalCost fT xs :=
+  ⟨sortArrayByT_fst fT v, arrayMaxByT_fst fT v, arrayMinByT_fst fT v, sortArrayByT_snd_le fT t xs,
+   arrayPickByT_snd_le _ fT t xs, arrayPickByT_snd_le _ fT t xs⟩
+
+/-- `zip(a₁, …, a_m)` (evaluator.go:1046-1081): the model's evaluation of the `zip` node, and when it returns `rows`
+    rows at most `2 m + rows·(2 + 2 m)` ticks of its own — linear in the size `rows · m` of what it built — plus the
+    evaluations of the arguments -/
+theorem zip_resource (root : Val) (args : List INode) (cur : Val) (env : Env) (cost : INode → Nat)
+    (h0 : args ≠ [])
+    (hlen : ∀ n ∈ args, ∀ t xs, ieval root n cur env = .ok (.arr t xs) → xs.length ≤ zipMaxInt) :
+    (zipT (args.map (fun n => ⟨ieval root n cur env, cost n⟩))).1 = ieval root (.zip args) cur env ∧
+    (∀ tg rows, (zipT (args.map (fun n => ⟨ieval root n cur env, cost n⟩))).1 = .ok (.arr tg rows) →
+      (zipT (args.map (fun n => ⟨ieval root n cur env, cost n⟩))).2
+        ≤ 2 * args.length + rows.length * (2 + 2 * args.length)
+          + evalCost id (args.map (fun n => (⟨ieval root n cur env, cost n⟩ : T (Res Val))))) := by
+  refine ⟨zipT_fst_ieval root args cur env cost h0 hlen, fun tg rows h => ?_⟩
+  have := zipT_snd_le_result _ tg rows h
+  simpa using this
+
 /-! ## 8. The lexer (lexer.go) and the parser's recursion -/
 
 /-- all the `(*Lexer).Next` calls of one `Parse(expr)`: the instrumented lexer returns the model's token stream in at
